@@ -67,7 +67,10 @@ impl Ipv4Subnet {
         (u32::from(self.addr) & u32::from(self.netmask())).into()
     }
     pub fn netmask(&self) -> std::net::Ipv4Addr {
-        (!(0xffff_ffff_u64 >> self.prefixlen) as u32).into()
+        (!0xffff_ffff_u32
+            .checked_shr(self.prefixlen as u32)
+            .unwrap_or(0))
+        .into()
     }
     pub fn contains(&self, ip: std::net::Ipv4Addr) -> bool {
         u32::from(ip) & u32::from(self.netmask()) == u32::from(self.addr)
